@@ -1825,10 +1825,12 @@ class Fxp():
     # numpy functions dispatch
     def __array_ufunc__(self, ufunc, method, *inputs, **kwargs):
         if method == '__call__':
-            # a numpy scalar or array on the left of a comparison or of a bitwise operator dispatches here:
-            # the operator of the Fxp operand is used, as for python numbers
+            # a numpy scalar or array on the left of a comparison, bitwise or arithmetic operator dispatches here:
+            # the (reflected) operator of the Fxp operand is used, as for python numbers, so the same sizing policies apply
             _reflected = {np.less: '__gt__', np.less_equal: '__ge__', np.greater: '__lt__', np.greater_equal: '__le__', np.equal: '__eq__',
-                          np.not_equal: '__ne__', np.bitwise_and: '__rand__', np.bitwise_or: '__ror__', np.bitwise_xor: '__rxor__'}
+                          np.not_equal: '__ne__', np.bitwise_and: '__rand__', np.bitwise_or: '__ror__', np.bitwise_xor: '__rxor__',
+                          np.add: '__radd__', np.subtract: '__rsub__', np.multiply: '__rmul__', np.true_divide: '__rtruediv__',
+                          np.floor_divide: '__rfloordiv__', np.mod: '__rmod__'}
             if ufunc in _reflected and len(inputs) == 2 and inputs[1] is self and not isinstance(inputs[0], Fxp) and not kwargs:
                 return getattr(self, _reflected[ufunc])(inputs[0])
             _direct = {np.less: '__lt__', np.less_equal: '__le__', np.greater: '__gt__', np.greater_equal: '__ge__', np.equal: '__eq__', np.not_equal: '__ne__'}
